@@ -54,6 +54,9 @@ def items(tier):
                     again=True))
     out.append(dict(kind="sparse", id="sparse-n2-gen-herm-csc-sym-again", n=2, gen=True, sigma="sym", nmodes=2, herm=True, fmt="csc",
                     again=True))
+    # the largest admissible number of modes for the symmetric driver (nmodes = n - 1)
+    out.append(dict(kind="sparse", id="sparse-n3-std-sym-fixeddata-k2", n=3, gen=False, sigma="zero", nmodes=2, fixed=True, fmt="csc",
+                    replay_nmodes="n-1"))
     if not q:
         for k in (1, 3):
             out.append(dict(kind="sparse", id="sparse-n3-std-sym-k%d" % k, n=3, gen=False, sigma="sym", nmodes=k))
@@ -203,18 +206,22 @@ def sc_sparse(V, P, cfg):
         from symx import factor, oracles
         oracles.CRAMER_MAX_N = 3
         Bm = np.asarray(B) if gen else np.eye(n, dtype=int).astype(object)
-        if cfg.get("herm"):
+        if cfg.get("herm") or cfg.get("fixed"):
             # these items are about the ARGUMENTS and the shift-invert OPERATOR handed to ARPACK; the oracle's answer is
             # fixed data (complex eigenvector contracts of a symbolic Hermitian matrix do not finish)
             from symx import factor, oracles
             oracles.CRAMER_MAX_N = 3
             V.c.arpack_calls = []
             # (not in ascending order: for complex Hermitian input scipy's eigsh hands back ARPACK's own order)
-            W = wrap(np.array([R.of(2), R.of(1)], dtype=object))
-            Q = wrap(np.array([[C(R.of(0), R.of(0)), C(R.of(1), R.of(0))], [C(R.of(1), R.of(0)), C(R.of(0), R.of(0))]], dtype=object))
+            W = wrap(np.array([R.of(nm - i_) for i_ in range(nm)], dtype=object))
+            Qd = np.empty((n, nm), dtype=object)
+            for i_ in range(n):
+                for j_ in range(nm):
+                    Qd[i_, j_] = C(R.of(1 if i_ == (nm - 1 - j_) else 0), R.of(0)) if cfg.get("herm") else R.of(1 if i_ == (nm - 1 - j_) else 0)
+            Q = wrap(Qd)
             assume_nonsingular(V, np.asarray(A) - (sigma * Bm if cfg["sigma"] == "sym" else 0), "A - sigma B")
             factor.register("eig", (W, Q))
-    if V.symbolic and not cfg.get("herm"):
+    if V.symbolic and not (cfg.get("herm") or cfg.get("fixed")):
         W = V.reals("W", n)
         Q = V.cplxs("Q", (n, n)) if cfg.get("herm") else V.reals("Q", (n, n))
         lhs = np.asarray(A) @ np.asarray(Q)
@@ -291,12 +298,13 @@ def sc_sparse(V, P, cfg):
         Wo_, Qo_ = np.asarray(Wo), np.asarray(Qo)
         P.holds("nmodes-returned", Wo_.shape == (nm,) and Qo_.shape == (n, nm), kind="shape")
         Bm = np.asarray(B) if gen else np.eye(n, dtype=int).astype(object)
-        for i in range(nm):
+        shape_ok = Wo_.shape == (nm,) and Qo_.shape == (n, nm)
+        for i in range(nm if shape_ok else 0):
             qo = Qo_[:, i]
             P.eq("norm[%d]:q^T B q == 1" % i, qo @ Bm @ qo, 1, kind="normalisation")
             if not cfg.get("herm"):
                 P.holds("sign[%d]:mean>=0" % i, sum(qo) >= 0, kind="sign")
-        for i in range(nm - 1):
+        for i in range(nm - 1 if shape_ok else 0):
             P.holds("order[%d]" % i, Wo_[i] <= Wo_[i + 1], kind="ordering")
     return obs
 
@@ -374,6 +382,8 @@ def _replay_sparse(cfg, label, V):
     bad = []
     for frac in (0.1, 0.9):
         N, nm, gen = 8, cfg["nmodes"], cfg["gen"]
+        if cfg.get("replay_nmodes") == "n-1":
+            nm = N - 1          # the item is about the largest admissible number of modes of the symmetric driver
         d = np.array([4.0, 7.5, 2.5, 9.0, 5.5, 12.0, 3.25, 8.0])
         Ad = np.diag(d) + np.diag(np.full(N - 1, 1.0), 1) + np.diag(np.full(N - 1, 1.0), -1)
         if cfg.get("herm"):     # complex Hermitian: purely imaginary skew part on the second off-diagonal
